@@ -232,6 +232,11 @@ def param_list(ctx):
     return ps
 
 
+def _short(choices):
+    t = ''.join(map(str, choices))
+    return t if len(t) <= 90 else t[:90] + '...(%d points)' % len(t)
+
+
 def run(ctx):
     rep = report.Report('C03', 'model_checking')
     bound = 1 if ctx.quick else 2
@@ -241,7 +246,7 @@ def run(ctx):
         rep.add(report.Violation(
             dict({'impl': v['params']['impl'], 'kind': v['kind']}, **v['sig']),
             '[%s %s k=%d choices=%s] %s' % (v['params']['impl'], v['params']['variant'], v['params']['k'],
-                                          ''.join(map(str, v['choices'])), v['text']),
+                                          _short(v['choices']), v['text']),
             {'params': v['params'], 'choices': v['choices']}, weight=(v['dev'], len(v['choices']))))
     rep.coverage = {
         'states': len(st.outcomes), 'transitions': st.points, 'traces_validated_against_impl': st.executions,
